@@ -266,17 +266,17 @@ class Engine:
             self._cross(extra, "unsat")
             return "unsat", None, "z3-oneshot"
         self.last_unknown = s.reason_unknown()
-        # shuffled variant (nlsat is sensitive to variable order)
-        s2 = z3.Solver()
-        s2.set("nlsat.shuffle_vars", True)
-        s2.set("nlsat.seed", 17 + self.seed)
-        s2.add(fs2)
-        s2.add(cons)
-        r = _z3_check(s2, self.timeout_ms)
+        # re-parsed variant: declares the constants in another order (nlsat is sensitive to variable order)
+        try:
+            s2 = z3.Solver()
+            s2.add(z3.parse_smt2_string(s.to_smt2()))
+            r = _z3_check(s2, self.timeout_ms)
+        except z3.Z3Exception:
+            r = z3.unknown
         if r == z3.sat:
-            return "sat", (s2.model() if want_model else None), "z3-oneshot-shuffled"
+            return "sat", (s2.model() if want_model else None), "z3-oneshot-reparsed"
         if r == z3.unsat:
-            return "unsat", None, "z3-oneshot-shuffled"
+            return "unsat", None, "z3-oneshot-reparsed"
         # cvc5 on the exported script (no model: only unsat is used from it)
         try:
             res = cvc5_check(s.to_smt2(), self.timeout_ms)
